@@ -8,6 +8,7 @@ package limiter
 
 import (
 	"context"
+	"errors"
 	"fmt"
 	"runtime"
 	"sort"
@@ -173,6 +174,10 @@ func (g *VerifC18Rig) VerifC18Heartbeats() map[string]int64 {
 	return res
 }
 
+// VerifC18ErrSlow: so much real time went by while the pass compared the entries with the clock that the scripted
+// clock's slack could have been used up; the pass ran, but its outcome must not be judged (the caller starts over).
+var VerifC18ErrSlow = errors.New("verif: the time-out pass overran the slack of the scripted clock")
+
 // VerifC18CleanupTimeout runs ONE real cleanupTimeoutClient pass as if the wall clock read nowMs on the rig's axis:
 // every entry is re-dated relative to the real clock, the pass runs, the goroutines it starts are awaited, the
 // surviving entries are dated back. An entry that the scripted clock calls live but that is within slackMs of the
@@ -192,6 +197,7 @@ func (g *VerifC18Rig) VerifC18CleanupTimeout(nowMs int64, slackMs int64) error {
 		g.r.clientCache.clientHeartbeats.Store(c, wall.Add(-time.Duration(age)*time.Millisecond))
 	}
 	g.r.cleanupTimeoutClient()
+	slow := time.Since(wall) >= time.Duration(slackMs)*time.Millisecond/2
 	deadline := time.Now().Add(20 * time.Second)
 	for runtime.NumGoroutine() > baseline {
 		if time.Now().After(deadline) {
@@ -204,6 +210,9 @@ func (g *VerifC18Rig) VerifC18CleanupTimeout(nowMs int64, slackMs int64) error {
 		if t, ok := orig[c]; ok {
 			g.r.clientCache.clientHeartbeats.Store(c, t)
 		}
+	}
+	if slow {
+		return VerifC18ErrSlow
 	}
 	return nil
 }
